@@ -207,29 +207,23 @@ def shrink_candidates(cfg, violation):
 
 
 def post_batch(tier, base_seed, results):
-    """Thorough tier: the compiled (JIT) code path - same seed, cache threshold in {-1, 0, 100, 10**6},
-    including runs long enough to overflow the real 2**16-node limit - must give identical traces."""
-    if tier != "thorough":
-        return {"evidence": {"compiled_cache_probe": "thorough tier only"}}
-    import json
-    import os
-    import subprocess
-    import sys
-    from . import cachedir
-    from .core import VERIF_DIR, HarnessError
-    env = dict(os.environ, NUMBA_DISABLE_JIT="0", NUMBA_CACHE_DIR=cachedir.numba_cache_dir())
-    n_cases = 96
-    cmd = [sys.executable, "-W", "ignore", os.path.join(VERIF_DIR, "sim", "probe_compiled.py"), "cache", str(base_seed), str(n_cases)]
-    p = subprocess.run(cmd, capture_output=True, text=True, env=env, timeout=3 * 3600)
-    if p.returncode != 0:
-        raise HarnessError("compiled cache probe failed: %s" % p.stderr[-1500:])
-    doc = json.loads(p.stdout.strip().splitlines()[-1])
-    out = {"evidence": {"compiled_cache_probe": {"cases": doc["cases"], "cases_overflowing_the_real_cache_limit": doc["big_cases"],
-                                                 "thresholds": [-1, 0, 100, 10 ** 6], "mismatches": len(doc["mismatches"])}}, "violations": []}
+    """The compiled (JIT) code path.  Both tiers: the call sampler with its per-chain cache on returns exactly the uncached
+    likelihood at every step and the same trajectory as with the cache off; DenovoMCMC.fit with the same seed and
+    llk_cache_threshold in {-1, 0, 100, 10**6} gives identical traces (quick: 12 small cases; thorough: 96 cases including runs long
+    enough to overflow the real 2**16-node limit)."""
+    from . import scn_c02
+    out = {"evidence": {}, "violations": []}
+    ev, vs = scn_c02.callcache_probe(tier, base_seed)
+    out["evidence"]["compiled_call_sampler_cache_probe"] = ev
+    out["violations"] += vs
+    args = ["cache", base_seed % (2 ** 31), 12, "small"] if tier != "thorough" else ["cache", base_seed % (2 ** 31), 96]
+    doc, cmd = scn_c02.run_compiled_probe(args, timeout=3 * 3600)
+    out["evidence"]["compiled_cache_probe"] = {"cases": doc["cases"], "cases_overflowing_the_real_cache_limit": doc["big_cases"],
+                                               "thresholds": [-1, 0, 100, 10 ** 6], "mismatches": len(doc["mismatches"])}
     if doc["mismatches"]:
         out["violations"].append({"class": "compiled_trajectory_depends_on_cache",
                                   "message": "compiled DenovoMCMC.fit gives different traces for different llk_cache_threshold values with the same seed: %r" % doc["mismatches"][:3],
-                                  "detail": doc["mismatches"][:10], "rerun": " ".join(cmd)})
+                                  "detail": doc["mismatches"][:10], "rerun": cmd})
     return out
 
 
